@@ -311,6 +311,27 @@ impl<'a> Interp<'a> {
                     }
                     vec![o]
                 }
+                // "terminate the stream if it's None": nothing more is emitted after the first None,
+                // within the tick ('tick: all scan state is per tick) or ever ('static).
+                // `st.acc.is_some()` = terminated.
+                ScanStop(p) => {
+                    begin(*p, &mut st.n);
+                    begin(*p, &mut st.acc);
+                    let mut o = vec![];
+                    for x in inp[0].iter() {
+                        if st.acc.is_some() {
+                            break;
+                        }
+                        let (a, b) = x.u8s();
+                        st.n = w8(w8(st.n * 2) + b as u64 + 1);
+                        if (a, b) == (1, 0) {
+                            st.acc = Some(Val::N(1));
+                        } else {
+                            o.push(kvv(a as u64, st.n));
+                        }
+                    }
+                    vec![o]
+                }
                 // "Buffers all input items and releases them at the next time boundary."
                 DeferTick | DeferTickLazy => {
                     let prev = std::mem::replace(&mut st.a, inp[0].clone());
